@@ -259,6 +259,7 @@ func runHistory(c *Ctx, name string, calls []*hCall, nTasks int, sim bool, jail 
 	}
 	chooser := c.Chooser(name, -1)
 	var run *simrt.Run
+	var infos []simrt.TaskInfo
 	func() {
 		defer func() {
 			if p := recover(); p != nil {
@@ -298,6 +299,7 @@ func runHistory(c *Ctx, name string, calls []*hCall, nTasks int, sim bool, jail 
 				})
 			}
 			run.Loop()
+			infos = run.Infos()
 			out.Returned = done == nTasks
 			out.DiskOps = d.Records()
 			if rdet != nil {
@@ -313,7 +315,7 @@ func runHistory(c *Ctx, name string, calls []*hCall, nTasks int, sim bool, jail 
 		for k, v := range run.Probes {
 			out.Probes[k] = v
 		}
-		for _, ti := range run.Infos() {
+		for _, ti := range infos {
 			out.Tasks++
 			if ti.Panic != "" {
 				out.Panics = append(out.Panics, PanicInfo{Task: ti.ID, Site: ti.PanicSite, Value: ti.Panic})
